@@ -309,9 +309,10 @@ done:
       flags |= ARES_CONN_STATE_WRITE;
     }
 
-    /* If using TCP and not all data was written (partial write), that means
-     * we need to also wait on a write event */
-    if (conn->flags & ARES_CONN_FLAG_TCP && ares_buf_len(conn->out_buf)) {
+    /* If not all data was written (TCP partial write, or a UDP datagram the
+     * socket would not take right now), that means we need to also wait on a
+     * write event */
+    if (ares_buf_len(conn->out_buf)) {
       flags |= ARES_CONN_STATE_WRITE;
     }
 
